@@ -90,6 +90,9 @@ class Impl:
             return DataSymbol(name, INTEGER_TYPE, interface=itf)
         if kind == "KRoutine":
             return RoutineSymbol(name, interface=itf)
+        if is_genif(kind):
+            from psyclone.psyir.symbols import GenericInterfaceSymbol
+            return GenericInterfaceSymbol(name, [(self.objs[r], False) for r in kind[1]], interface=itf)
         return IntrinsicSymbol(name, IntrinsicCall.Intrinsic.SIN, interface=itf)
 
     def interface(self, iface):
@@ -122,6 +125,9 @@ class Impl:
             kw.update(symbol_type=DataSymbol, datatype=INTEGER_TYPE)
         elif kind == "KRoutine":
             kw["symbol_type"] = RoutineSymbol
+        elif is_genif(kind):
+            from psyclone.psyir.symbols import GenericInterfaceSymbol
+            kw.update(symbol_type=GenericInterfaceSymbol, routines=[(self.objs[r], False) for r in kind[1]])
         else:
             kw.update(symbol_type=IntrinsicSymbol, intrinsic=IntrinsicCall.Intrinsic.SIN)
         return kw
@@ -131,9 +137,12 @@ class Impl:
         from psyclone.psyir.symbols import (Symbol, DataSymbol, ContainerSymbol, RoutineSymbol, IntrinsicSymbol,
                                             AutomaticInterface, ArgumentInterface, ImportInterface,
                                             UnresolvedInterface, CommonBlockInterface)
+        from psyclone.psyir.symbols import GenericInterfaceSymbol
         t = type(o)
         kind = {Symbol: "KGeneric", DataSymbol: "KData", ContainerSymbol: "KContainer",
                 RoutineSymbol: "KRoutine", IntrinsicSymbol: "KIntrinsic"}.get(t, "K?" + t.__name__)
+        if t is GenericInterfaceSymbol:
+            kind = ("KGenIface", tuple(self.sid(r.symbol) for r in o.routines))
         itf = o.interface
         if isinstance(itf, ImportInterface):
             iv = ("IImport", self.sid(itf.container_symbol), itf.orig_name or "")
@@ -593,8 +602,18 @@ def c_iface(i):
     return i[0]
 
 
+def is_genif(kind):
+    return isinstance(kind, (tuple, list)) and kind[0] == "KGenIface"
+
+
+def c_kind(k):
+    if is_genif(k):
+        return "(KGenIface %s)" % core.coq_list(str(x) for x in k[1])
+    return k if not k.startswith("K?") else "KGeneric"
+
+
 def c_spec(sp):
-    return "(mkSpec %s %s %s)" % (sp[0], "true" if sp[1] else "false", c_iface(sp[2]))
+    return "(mkSpec %s %s %s)" % (c_kind(sp[0]), "true" if sp[1] else "false", c_iface(sp[2]))
 
 
 def c_bool(b):
@@ -671,8 +690,8 @@ def c_table(t):
 
 def c_state(s):
     """heap, slots, detached tables in the monomorphic wire format of coq/C16/Exec.v"""
-    heap = w_chain("WH", "WH0", ("%s %s %s %s" % (q(n), k if not k.startswith("K?") else "KGeneric",
-                                                 c_bool(w), c_iface(i)) for n, k, w, i in s["heap"]))
+    heap = w_chain("WH", "WH0", ("%s %s %s %s" % (q(n), c_kind(k), c_bool(w), c_iface(i))
+                                  for n, k, w, i in s["heap"]))
     slots = "WS0"
     for t in reversed(s["slots"]):
         slots = "(WSnone %s)" % slots if t is None else "(WSsome %s %s)" % (c_table(t), slots)
@@ -694,8 +713,10 @@ def c_case(nslots, steps, full=False):
 
 
 # --------------------------------------------------------------------------------- generators
-def gen_spec(rng, containers, allow_bad=False):
+def gen_spec(rng, containers, routines=()):
     kind = rng.choices(KINDS, weights=[22, 36, 14, 16, 12])[0]
+    if routines and rng.random() < 0.07:
+        kind = ("KGenIface", tuple(rng.sample(list(routines), min(len(routines), rng.choice([1, 1, 2])))))
     if kind == "KContainer":
         return (kind, rng.random() < 0.35, ("IOther",))
     r = rng.random()
@@ -744,6 +765,22 @@ class Gen:
             return rng.randrange(len(impl.objs))
         return 0
 
+    @staticmethod
+    def referenced(impl, tref):
+        """symbols of the table whose removal must be rejected: containers still imported from,
+        routines that are members of a generic interface of the table"""
+        from psyclone.psyir.symbols import GenericInterfaceSymbol
+        t = impl.table(tref)
+        if t is None:
+            return []
+        out = []
+        for x in t.symbols:
+            if x.is_import and any(x.interface.container_symbol is y for y in t.symbols):
+                out.append(impl.sid(x.interface.container_symbol))
+            if isinstance(x, GenericInterfaceSymbol):
+                out += [impl.sid(r.symbol) for r in x.routines if any(r.symbol is y for y in t.symbols)]
+        return sorted(set(out))
+
     def name(self):
         rng = self.rng
         if self.flavour == "fresh":
@@ -754,7 +791,9 @@ class Gen:
 
     def next_op(self, impl):
         rng = self.rng
+        from psyclone.psyir.symbols import RoutineSymbol as _Routine
         containers = [i for i, o in enumerate(impl.objs) if type(o).__name__ == "ContainerSymbol"]
+        routines = [i for i, o in enumerate(impl.objs) if isinstance(o, _Routine)]
         w = {"add": 24, "new_symbol": 9, "find_or_create": 3, "find_or_create_tag": 4, "next_name": 6,
              "lookup": 8, "lookup_tag": 3, "rename": 8, "remove": 5, "swap": 3, "specify_args": 2,
              "merge": 9, "new_table": 4, "detach": 2, "attach": 2, "badref": 1}
@@ -764,6 +803,8 @@ class Gen:
             w.update(new_symbol=22, next_name=14, find_or_create_tag=8, rename=4)
         if self.flavour == "intrinsic":
             w.update(merge=16, new_table=8, add=36)
+        if self.flavour == "refs":
+            w.update(add=40, remove=16, swap=6, lookup_tag=8, find_or_create_tag=6, merge=4)
         if not impl.det:
             w["merge"] = 0
             w["attach"] = 0
@@ -793,22 +834,40 @@ class Gen:
         prefer_det = bool(impl.det) and (self.flavour in ("merge", "intrinsic") and rng.random() < 0.5)
         tref = self.pick_tref(impl, prefer_det)
         if kind == "add":
-            spec = gen_spec(rng, containers)
+            spec = gen_spec(rng, containers, routines)
             if self.flavour == "merge" and rng.random() < 0.45:
                 # renameable locals: merges then resolve clashes by renaming instead of refusing
                 spec = (rng.choice(["KData", "KData", "KGeneric", "KRoutine"]), False, ("IAuto",))
             if self.flavour == "intrinsic" and rng.random() < 0.6:
                 spec = (rng.choice(["KGeneric", "KGeneric", "KRoutine", "KData", "KIntrinsic"]), False, ("IUnres",))
             tag = rng.choice(TAGS) if rng.random() < 0.2 else ""
+            if self.flavour == "refs":
+                # tagged containers / routines that get referenced from the same table, so that
+                # remove() and swap() of them must be rejected
+                t = impl.table(tref)
+                here = t.symbols if t is not None else []
+                conts = [impl.sid(x) for x in here if type(x).__name__ == "ContainerSymbol"]
+                routs = [impl.sid(x) for x in here if isinstance(x, _Routine)]
+                r = rng.random()
+                if r < 0.25 or not (conts or routs):
+                    spec = (rng.choice(["KContainer", "KRoutine", "KRoutine"]), False, ("IOther",))
+                    if spec[0] == "KRoutine":
+                        spec = ("KRoutine", False, ("IAuto",))
+                elif r < 0.6 and conts:
+                    spec = (rng.choice(["KData", "KGeneric", "KRoutine"]), False, ("IImport", rng.choice(conts), ""))
+                elif routs:
+                    spec = (("KGenIface", tuple(rng.sample(routs, min(len(routs), rng.choice([1, 2]))))), False, ("IAuto",))
+                if rng.random() < 0.6:
+                    tag = rng.choice(TAGS + ["t3", "t4", "c1", "r1"])
             return ("add", tref, self.name(), spec, tag)
         if kind == "new_symbol":
             return ("new_symbol", tref, self.name() if rng.random() < 0.9 else "", rng.choice(TAGS) if rng.random() < 0.25 else "",
-                    rng.random() < 0.3, gen_spec(rng, containers), rng.random() < 0.8)
+                    rng.random() < 0.3, gen_spec(rng, containers, routines), rng.random() < 0.8)
         if kind == "find_or_create":
-            return ("find_or_create", tref, self.name(), gen_spec(rng, containers))
+            return ("find_or_create", tref, self.name(), gen_spec(rng, containers, routines))
         if kind == "find_or_create_tag":
             return ("find_or_create_tag", tref, rng.choice(TAGS), self.name() if rng.random() < 0.6 else "",
-                    rng.random() < 0.3, gen_spec(rng, containers), rng.random() < 0.8)
+                    rng.random() < 0.3, gen_spec(rng, containers, routines), rng.random() < 0.8)
         if kind == "next_name":
             other = None
             if rng.random() < 0.4:
@@ -833,15 +892,21 @@ class Gen:
                 nm = rng.choice(t.symbols).name.swapcase()     # differs only in case from a name in use
             return ("rename", tref, self.pick_sid(impl, tref), nm)
         if kind == "remove":
+            ref = self.referenced(impl, tref)
+            if ref and rng.random() < (0.7 if self.flavour == "refs" else 0.3):
+                return ("remove", tref, rng.choice(ref))
             return ("remove", tref, self.pick_sid(impl, tref))
         if kind == "swap":
             old = self.pick_sid(impl, tref)
+            ref = self.referenced(impl, tref)
+            if ref and rng.random() < (0.5 if self.flavour == "refs" else 0.15):
+                old = rng.choice(ref)
             nm = impl.objs[old].name if impl.objs else "a"
             if rng.random() < 0.5:
                 nm = nm.swapcase()
             if rng.random() < 0.15:
                 nm = self.name()
-            return ("swap", tref, old, nm, gen_spec(rng, containers))
+            return ("swap", tref, old, nm, gen_spec(rng, containers, routines))
         if kind == "specify_args":
             t = impl.table(tref)
             args = [impl.sid(s) for s in (t.symbols if t is not None else []) if s.is_argument]
@@ -871,6 +936,8 @@ def op_sids(op):
     spec = {"add": 3, "find_or_create": 3, "swap": 4, "new_symbol": 5, "find_or_create_tag": 5}.get(n)
     if spec is not None and op[spec][2][0] == "IImport":
         out.append(op[spec][2][1])
+    if spec is not None and is_genif(op[spec][0]):
+        out += list(op[spec][0][1])
     if n in ("rename", "remove", "swap"):
         out.append(op[2])
     if n == "specify_args":
@@ -939,6 +1006,19 @@ def targeted_histories():
     out.append((3, [("add", ("slot", 2), "a_1", d, ""), ("add", ("slot", 1), "A", d, ""), ("add", ("slot", 0), "a", ("KData", False, ("IArg",)), ""),
                     ("new_table",), ("add", ("det", 0), "A", d, "t1"), ("add", ("det", 0), "a_2", d, ""), ("add", ("det", 0), "Mod1", ("KContainer", True, ("IOther",)), ""),
                     ("add", ("slot", 0), "mod1", c, ""), ("merge", ("slot", 0), 0, []), ("lookup", ("slot", 0), "A_3"), ("lookup", ("slot", 0), "a")]))
+    # rejected remove()/swap() of TAGGED symbols that are still referenced: a container imported from,
+    # a routine that is a member of a generic interface; the tags must survive
+    out.append((2, [("add", ("slot", 0), "mod1", c, "c1"), ("add", ("slot", 0), "x", ("KData", False, ("IImport", 0, "")), ""),
+                    ("add", ("slot", 0), "sub", ("KRoutine", False, ("IAuto",)), "r1"),
+                    ("add", ("slot", 0), "gen", (("KGenIface", (2,)), False, ("IAuto",)), "g1"),
+                    ("remove", ("slot", 0), 0), ("lookup_tag", ("slot", 0), "c1"),
+                    ("remove", ("slot", 0), 2), ("lookup_tag", ("slot", 0), "r1"),
+                    ("swap", ("slot", 0), 0, "MOD1", c), ("lookup_tag", ("slot", 0), "c1"),
+                    ("find_or_create_tag", ("slot", 0), "c1", "mod1", False, c, True),
+                    ("find_or_create_tag", ("slot", 0), "r1", "sub", False, ("KRoutine", False, ("IAuto",)), True),
+                    ("add", ("slot", 0), "other", d, "c1"),
+                    ("remove", ("slot", 0), 3), ("remove", ("slot", 0), 2), ("lookup_tag", ("slot", 0), "r1"),
+                    ("remove", ("slot", 0), 1), ("remove", ("slot", 0), 0), ("lookup_tag", ("slot", 0), "c1")]))
     # rename / add / swap against a name that differs only in case
     out.append((2, [("add", ("slot", 0), "a", d, "t1"), ("add", ("slot", 0), "b", d, ""), ("rename", ("slot", 0), 1, "A"),
                     ("rename", ("slot", 0), 1, "B"), ("rename", ("slot", 0), 0, "A"), ("add", ("slot", 0), "B", g, ""),
@@ -968,6 +1048,13 @@ def witness_ops(w):
     return [conv(o) for o in w["ops"]]
 
 
+def norm_spec(sp):
+    kind = sp[0]
+    if is_genif(kind):
+        kind = ("KGenIface", tuple(kind[1]))
+    return (kind, sp[1], tuple(sp[2]))
+
+
 def normalise_op(op):
     """tuples all the way down, trefs as tuples, skip lists as lists"""
     op = list(op)
@@ -975,11 +1062,11 @@ def normalise_op(op):
     if n not in ("new_table", "detach", "attach"):
         op[1] = tuple(op[1])
     if n in ("add", "find_or_create"):
-        op[3] = (op[3][0], op[3][1], tuple(op[3][2]))
+        op[3] = norm_spec(op[3])
     if n == "swap":
-        op[4] = (op[4][0], op[4][1], tuple(op[4][2]))
+        op[4] = norm_spec(op[4])
     if n in ("new_symbol", "find_or_create_tag"):
-        op[5] = (op[5][0], op[5][1], tuple(op[5][2]))
+        op[5] = norm_spec(op[5])
     if n == "next_name" and op[4] is not None:
         op[4] = tuple(op[4])
     if n == "merge":
@@ -1055,7 +1142,7 @@ def run(ctx):
     histories = [(n, [normalise_op(o) for o in ops]) for n, ops in targeted_histories()]
     n_random = ctx.pick(220, 5000)
     for i in range(n_random):
-        flavour = rng.choices(["mixed", "merge", "fresh", "intrinsic"], weights=[5, 3, 2, 2])[0]
+        flavour = rng.choices(["mixed", "merge", "fresh", "intrinsic", "refs"], weights=[5, 3, 2, 2, 3])[0]
         nslots = rng.choices([1, 2, 3, 4], weights=[3, 4, 4, 1])[0]
         length = rng.randint(4, ctx.pick(14, 22))
         histories.append((nslots, Gen(ctx.rng("h%d" % i), nslots, length, flavour).history()))
